@@ -299,7 +299,8 @@ CHECKS["C11"] = (
     "that setup_mcmc assembles (poly_trend 1..3, 0..2 offsets, constant / sampled / no jitter, prior units d|yr, km/s|m/s) is evaluated at the "
     "returned initial point and at a second point as a function of its random variables: Coq certifies model_rv = M x with the K column from "
     "twobody at the sampler's convention, ln_likelihood = sum ln N(y | M x, sigma^2+s^2) and the same for the log-density term of the observed "
-    "variable; mcmc_init = the chosen (median-period) sample in the prior's units.",
+    "variable; mcmc_init = the chosen (median-period) sample in the prior's units. tools/py2v_mcmc.py regenerates setup_mcmc and KeplerianOrbit.__init__ / _warp_times / _get_true_anomaly / get_radial_velocity from source "
+    "(Gen/McmcGen.v, accepted only in the pinned statement forms) and Props/C11g.v proves the generated orbit counts the mean anomaly as the sampler does, model_rv = the sampler's Keplerian term + design row . (v0, offsets, v1..), and the observation term is the Gaussian data term with variance err^2 + s^2.",
     "Trusted: pymc's model.logp = sum of declared log-densities (free variables with their transforms' Jacobians + the observed variable); "
     "exoplanet_core's Kepler solver; twobody for the sampler-convention K column; astropy conversion factors; tolerances 1e-8 / 1e-7.",
     "DESIGN.md 3 (C11)",
